@@ -837,6 +837,8 @@ type LA { data: [Int]! m: [[Int]!] }
 type LB { data: [Int] m: [[Int]] }
 union LU = LA | LB
 extend type Q { lu: LU }
+input FIn { fl: Float fls: [Float] }
+extend type Q { g(fl: Float, fls: [Float], fi: FIn): Int }
 `
 
 var c08SeedDocs = []string{
@@ -850,6 +852,20 @@ var c08SeedDocs = []string{
 	`{ lu { ... on LA { data } ... on LB { data } } }`, `{ lu { ... on LA { m } ... on LB { m } } }`, // list nullability in SameResponseShape
 	`{ f @rep(x: 1) @rep(x: 2) }`, `subscription { x: a y: a }`, `{ f(l: [1]) f(l: [2]) }`, `{ f(i: {b: 1}) f(i: {b: 2}) }`, `{ f(i: {b: 1, a: 2}) f(i: {a: 2, b: 1}) }`,
 	`{ ab { ... on A { k: x } ... on B { k: o { id } } } }`, `{ ab { ... on A { k } ... on B { k } } }`, `{ n { ... on S { a } } }`,
+}
+
+// integer literals at and beyond the range of a double where a Float is expected (repaired finding "an
+// integer literal beyond the range of a double is not a Float"): the largest integer that converts to a
+// finite double (valid) and the literals that convert to ±Inf (invalid), as argument, list item, input
+// field, item of an input field, and variable default.
+func init() {
+	lits := append([]string{gen.MaxFiniteDoubleInt, "-" + gen.MaxFiniteDoubleInt}, gen.BeyondDoubleInts...)
+	for _, l := range lits {
+		c08SeedDocs = append(c08SeedDocs,
+			`{ g(fl: `+l+`) }`, `{ g(fls: [1, `+l+`]) }`, `{ g(fi: {fl: `+l+`}) }`, `{ g(fi: {fls: [`+l+`, 2.5]}) }`,
+			`query($v: Float = `+l+`) { g(fl: $v) }`, `query($v: [Float] = [`+l+`]) { g(fls: $v) }`,
+			`query($v: FIn = {fl: `+l+`}) { g(fi: $v) }`)
+	}
 }
 
 // ---------- the sweep ----------
@@ -941,6 +957,13 @@ func (run *c08Run) sweep() {
 			}
 			batch = append(batch, [2]string{sdl, doc})
 			origins = append(origins, origin)
+			if k == 0 {
+				// every schema also carries the integer-beyond-double fault at one Float position, if it has one
+				if f, ok := gen.InjectDocFaultVariant(rr.Fork(77), s, size, "ValuesOfCorrectType/int-literal-beyond-double-for-Float"); ok && len(f.Doc) <= 6000 {
+					batch = append(batch, [2]string{sdl, f.Doc})
+					origins = append(origins, "injected-faults")
+				}
+			}
 			if rr.Chance(1, 12) {
 				sample = append(sample, [2]string{sdl, doc})
 			}
